@@ -208,7 +208,17 @@ def ascii_table(
         if isinstance(value, (numpy.timedelta64,)):
             from types import SimpleNamespace
 
-            seconds = value / numpy.timedelta64(1000000000, "ns")
+            if numpy.isnat(value):
+                return None
+            try:
+                seconds = value / numpy.timedelta64(1000000000, "ns")
+            except TypeError:
+                # month and year units have no fixed length
+                return SimpleNamespace(
+                    months=int(value.astype("timedelta64[M]").astype(numpy.int64)),
+                    days=0,
+                    nanoseconds=0,
+                )
             return SimpleNamespace(
                 months=0, days=int(seconds // 86400), nanoseconds=(seconds % 86400) * 1e9
             )
